@@ -1,6 +1,12 @@
 """Per-property configuration of the checks (what to prove-check, which
 drivers to run, how non-triviality is judged)."""
 
+QUEUE_RULE = ("queue: seeded random Push/Pop histories (2..40 ops + drain) over 1..3 tags (priority 0..2, all four orders, chunk 1..6 or whole, "
+              "last-delay 0/3600 s), 1..4 groups incl. names that are prefixes of each other and groups without a tag; files arriving late and older, "
+              "equal timestamps, young files inside the delay, pre-allocated placeholders, resumed files with own predecessor; 3/4 of the cases push each "
+              "name once (proved domain), 1/4 re-push pending names (finding domain); every Pop of the real queue is compared with the model and judged by "
+              "the oracles on the agreed pre-state; non-trivial = >=2 groups served or >=4 chunks; distinct = distinct input lines")
+
 PROPS = {
     "C09": dict(
         coq="Properties/C09.v",
@@ -46,5 +52,42 @@ PROPS = {
             "int64(float64(cap)*0.1) = cap/10 for cap < 2^53 (validated by the differential run, not proved)",
             "the 1 s idle flush of the binner is modelled as a nondeterministic flush event between chunks",
         ],
+    ),
+    "C10": dict(
+        coq="Properties/C10.v",
+        suites=[
+            dict(name="queue", pkg="./queue/", test="TestVerifQueue", min_lines=1000,
+                 oracles=["emits_unknown_file", "emits_allocated_file", "not_least_in_order", "not_next_in_arrival_order",
+                          "names_itself", "wrong_predecessor", "prev_chain_lost_on_repush"]),
+        ],
+        rule=QUEUE_RULE,
+        level_text=("Proof: Coq theorems over the executable model of queue.Tagged for all Push/Pop histories: pending lists stay sorted in the "
+                    "tag's order, every emitted chunk belongs to the least pending file (first arrived for unordered tags), the announced predecessor "
+                    "is exactly: none for unordered tags / the resumed file's own / the most recently completed-or-skipped file of the group, never "
+                    "the file itself, completed strictly earlier (acyclicity); the chain invariant is proved over all histories with benign pushes and "
+                    "refuted (witness) for a re-push of the only pending file = known finding. Tied to the real queue by seeded differential histories."),
+        level_note=("Trusted: Coq kernel (no axioms), extraction, OCaml/Go harness. Modelled by hand: queue.Tagged Push/Pop/addFile/removeFile/"
+                    "delayGroup/addGroup with the linked chain as kept++files. Assumed: sort.Search returns the first index whose predicate holds on a "
+                    "sorted slice (library spec, exercised by the differential run); time.Since is replaced by an explicit 'now'."),
+        technique="Coq proof (invariants over Push/Pop histories) + extracted-model differential testing of the real queue",
+        assumptions=["sort.Search specification (first true index on monotone predicates)",
+                     "file times/sizes of queued objects do not mutate while queued",
+                     "the grouper/tagger functions are deterministic (inputs of the model)"],
+    ),
+    "C12": dict(
+        coq="Properties/C12.v",
+        suites=[
+            dict(name="queue", pkg="./queue/", test="TestVerifQueue", min_lines=1000,
+                 oracles=["priority_inversion", "round_robin_bypassed", "idle_while_ready"]),
+        ],
+        rule=QUEUE_RULE,
+        level_text=("Proof: Coq theorems for all histories: the group list stays sorted by priority, Pop serves the first ready group in list order, "
+                    "hence never a lower-priority group while a higher one is ready, is never idle while a group is ready, and passes over a group whose "
+                    "only file is inside the last-file delay. The rotation clause (bounded bypass among equal priorities) is evaluated as an extracted-state "
+                    "oracle on every implementation trace and is the part of the statement not yet closed by a theorem (see DESIGN)."),
+        level_note=("Trusted: Coq kernel (no axioms), extraction, harness. Modelled by hand: queue.Tagged group list, delayGroup, addGroup, Pop loop. "
+                    "Partial: round-robin bounded bypass is checked on traces (model state + oracle), not proved."),
+        technique="Coq proof (priority-sortedness invariant, first-ready lemma) + extracted-model differential testing + rotation oracle",
+        assumptions=["time.Since replaced by explicit 'now' (driver keeps ages far from the delay threshold)"],
     ),
 }
